@@ -687,3 +687,80 @@ class Session:
             self.nontrivial.add(hash(ops))
         if len(self.samples) < 3:
             self.samples.append(op_lines(ops)[:40])
+
+
+# ----------------------------------------------------------------------------------------------
+# the check itself (shared by C01 C02 C03 C05 C09 C12 C13; each module supplies its configuration)
+# ----------------------------------------------------------------------------------------------
+def corpus_files(props):
+    out = []
+    for p in props:
+        d = os.path.join(vlib.VERIF, "corpus", p)
+        if os.path.isdir(d):
+            out += [os.path.join(d, f) for f in sorted(os.listdir(d)) if f.endswith(".ops")]
+    return out
+
+
+def run_world_check(ctx, cfg):
+    """cfg: dict(mix, corpus=[prop ids], n_quick, n_thorough, len=(lo,hi), gen=dict(kwargs for Gen), what=str,
+                 extra_oracle=callable|None, exhaustive=callable|None)"""
+    sess = Session(ctx, cfg.get("extra_oracle"))
+    rng = ctx.rng
+    files = []
+    if getattr(ctx, "replay", None):
+        files.append(("replay:" + ctx.replay, open(ctx.replay).read()))
+    else:
+        for f in corpus_files(cfg.get("corpus", [])):
+            files.append(("corpus:" + os.path.relpath(f, vlib.VERIF), open(f).read()))
+        for name, text in (cfg["exhaustive"](ctx) if cfg.get("exhaustive") else []):
+            files.append((name, text))
+        n = cfg["n_thorough"] if ctx.thorough else cfg["n_quick"]
+        for i in range(n):
+            g = Gen(rng, cfg["mix"], **cfg.get("gen", {}))
+            lo, hi = cfg.get("len", (8, 45))
+            if ctx.thorough:
+                hi = hi * 3
+            files.append(("random:%d" % i, g.run(rng.randint(lo, hi))))
+    failures = {"oracle": [], "abort": [], "tie": []}
+    import concurrent.futures as cf
+    with cf.ThreadPoolExecutor(max(2, vlib.NPROC - 2)) as ex:
+        results = list(ex.map(lambda f: sess.check_file(f[1]), files))
+    for (name, ops), r in zip(files, results):
+        sess.account(ops)
+        if r:
+            failures[r[0]].append((name, ops, r[1]))
+    reported = 0
+    # property failures (oracle / sanitizer aborts): shrink, report with the op file as replay
+    for kind in ("oracle", "abort"):
+        seen = set()
+        for name, ops, msg in failures[kind]:
+            sig = re.sub(r"0x[0-9a-f]+|\d+", "#", msg)[:80]
+            if sig in seen or reported >= 3:
+                continue
+            seen.add(sig)
+            small = shrink(ops, lambda t, k=kind: (lambda x: x is not None and x[0] == k)(sess.check_file(t)), budget=60)
+            r2 = sess.check_file(small)
+            ctx.violation(small, "%s fails on the implementation (%s, %s): %s" % (ctx.prop, kind, name, (r2 or (0, msg))[1][:500]))
+            reported += 1
+    if not reported and failures["tie"]:
+        name, ops, msg = failures["tie"][0]
+        small = shrink(ops, lambda t: (lambda x: x is not None and x[0] == "tie")(sess.check_file(t)), budget=60)
+        r2 = sess.check_file(small)
+        ctx.violation(small, "correspondence model<->implementation broken (%d of %d files; first %s): %s; the property oracle "
+                      "(abstract spec vs implementation) found no failing input in %d files"
+                      % (len(failures["tie"]), len(files), name, (r2 or (0, msg))[1][:400], len(files)), no_input=True)
+    ctx.cov(evaluations=len(files), distinct_nontrivial=len(sess.nontrivial),
+            rule="one case = one op file executed on the real library (ASan+UBSan), on the Lean world model and on the Lean spec; "
+                 "corpus first, then seeded structured random histories (generator keeps an exact abstract reference state so that "
+                 "histories stay inside the documented contract; a separate malformed stream feeds stale/null/foreign/random handles "
+                 "to the checked entry points); non-trivial = distinct files with >= 3 structural operations. " + cfg.get("what", ""),
+            samples=sess.samples, op_histogram=dict(sorted(sess.hist.items())),
+            oracle_failures=len(failures["oracle"]), aborts=len(failures["abort"]), tie_differences=len(failures["tie"]),
+            trusted_base=["Lean 4.33 kernel and the axioms listed under axioms_used",
+                          "harness/world_driver.cpp + canonicalisation; tools/props/world_common.py generator and diff",
+                          "hand-written model lean/Mustache/Model/World.lean and spec lean/Mustache/Spec/World.lean: tied to /repo by "
+                          "differential execution on the explored op files only",
+                          "C++ abstract machine, compiler, std containers, user component code: outside the model"])
+    ctx.assume("one API call issued while locked is atomic w.r.t. other threads' calls (scripted interleavings run one call at a time)",
+               "contract of DESIGN.md 3.3: unguarded entry points get valid handles; assign only of a component the entity lacks",
+               "component values are opaque tokens")
